@@ -49,7 +49,7 @@ func (a *Addressing) ExtractMailbox(address string) (string, error) {
 		return "", fmt.Errorf("domain part %q in %q failed validation", domain, address)
 	}
 
-	return local + "@" + domain, nil
+	return local + "@" + lowerDomainName(domain), nil
 }
 
 // NewRecipient parses an address into a Recipient. This is used for parsing RCPT TO arguments,
@@ -238,7 +238,16 @@ func extractDomainMailbox(address string) (string, error) {
 		return "", fmt.Errorf("domain part %q in %q failed validation", domain, address)
 	}
 
-	return domain, nil
+	return lowerDomainName(domain), nil
+}
+
+// lowerDomainName lower-cases a domain name, so that every spelling of a domain names the same
+// mailbox.  Address literals ("[1.2.3.4]", "[IPv6:...]") are returned unchanged.
+func lowerDomainName(domain string) string {
+	if strings.HasPrefix(domain, "[") {
+		return domain
+	}
+	return strings.ToLower(domain)
 }
 
 // parseEmailAddress unescapes an email address, and splits the local part from the domain part.  An
